@@ -240,6 +240,7 @@ REFUSALS = [
     ("modules.Modules.add", "unknown category", "not_in_table", "category", "SUPPORTED_CATEGORIES"),
     ("modules.Modules.add", "absolute path", "startswith_slash", "modulemd_path", None),
     ("modules.Modules.add", "empty koji_tag", "falsy", "koji_tag", None),
+    ("modules.Modules.add", "empty modulemd_path", "falsy", "modulemd_path", None),
     ("modules.Modules.add", "rpms not a list", "not_isinstance", "rpms", ("list", "tuple")),
     ("modules.Modules._check_uid", "uid not a string", "not_isinstance", "uid", ("str",)),
     ("modules.Modules._check_uid", "missing stream", "not_contains", "uid", ":"),
